@@ -18,6 +18,7 @@ import (
 
 	"github.com/Flowpack/prunner"
 	"github.com/Flowpack/prunner/definition"
+	"github.com/Flowpack/prunner/store"
 	"github.com/Flowpack/prunner/taskctl"
 )
 
@@ -35,6 +36,10 @@ func newRig(t *testing.T, defs *definition.PipelinesDef, killTimeout time.Durati
 	if err != nil {
 		t.Fatal(err)
 	}
+	dstore, err := store.NewJSONDataStore(dir + "/data")
+	if err != nil {
+		t.Fatal(err)
+	}
 	ctx, cancel := context.WithCancel(context.Background())
 	pr, err := prunner.NewPipelineRunner(ctx, defs, func(j *prunner.PipelineJob) taskctl.Runner {
 		// as in app.go
@@ -46,7 +51,7 @@ func newRig(t *testing.T, defs *definition.PipelinesDef, killTimeout time.Durati
 		taskRunner.Stdout = io.Discard
 		taskRunner.Stderr = io.Discard
 		return taskRunner
-	}, nil, ostore)
+	}, dstore, ostore)
 	if err != nil {
 		t.Fatal(err)
 	}
